@@ -22,6 +22,7 @@ func init() {
 	reg("C11", "C11.R6", "E1", "the decompressor reads the whole body: multi-member mode is never switched off", 1, ruleHTTPWholeBody)
 	reg("C11", "C11.R5", "E6", "carry-over: starts empty for every request; whenever it is non-empty the line handed to In contains it", 1, ruleHTTPCarryOver)
 	reg("C11", "C11.R4", "E2", "chunk processor: one In per newline, carry-over appended otherwise, last chunk flushed", 1, ruleHTTPChunk)
+	reg("C11", "C11.R7", "E1", "only the line reader consumes the request body: no form helper of net/http is called", 1, ruleHTTPBodyReadOnce)
 }
 
 type httpRoles struct {
@@ -892,4 +893,30 @@ func ruleHTTPCarryOver(c *Ctx, r *Rule) {
 		}
 		r.Ob(zero, fmt.Sprintf("%s|returns-empty#%d", c.fnName(h), i), ret.Pos(), "every request starts with an EMPTY carry-over: a pooled buffer is truncated to length 0 (bytes left by an aborted request must not be prepended to the next body): "+c.path(v))
 	}
+}
+
+// ruleHTTPBodyReadOnce: the lines of the request body are what the handler hands to the pipeline, so
+// nothing else may consume the body: the net/http form helpers (ParseForm, FormValue, ...) read a
+// form-encoded body to its end when called, after which the bulk reader sees EOF, hands nothing over
+// and still answers 200.
+func ruleHTTPBodyReadOnce(c *Ctx, r *Rule) {
+	consuming := map[string]bool{"ParseForm": true, "ParseMultipartForm": true, "FormValue": true, "PostFormValue": true, "FormFile": true, "MultipartReader": true}
+	n := 0
+	for _, fn := range c.ModFuncs {
+		if c.pkgOf(fn) != "plugin/input/http" {
+			continue
+		}
+		n++
+		for _, ci := range callsIn(fn) {
+			f := calleeFunc(ci)
+			if f == nil || f.Signature.Recv() == nil || !consuming[f.Name()] {
+				continue
+			}
+			if rn := namedOf(deref(f.Signature.Recv().Type())); rn != nil && rn.Obj().Pkg() != nil && rn.Obj().Pkg().Path() == "net/http" && rn.Obj().Name() == "Request" {
+				r.Ob(false, c.fnName(fn)+"|"+f.Name(), ci.Pos(), "Request."+f.Name()+" may read the request body before the line reader does: for a form-encoded POST no line reaches the pipeline and the client is still told 200")
+			}
+		}
+	}
+	r.Inst(1)
+	r.Ob(n >= 5, "plugin/input/http|scope", token.NoPos, fmt.Sprintf("%d functions of the http input scanned for body-consuming request helpers", n))
 }
